@@ -283,4 +283,4 @@ def check_case(case):
     return r
 
 
-PARTS = [Part("fft", check_case, {"quick": 24000, "thorough": 400000}, strategy=st_case)]
+PARTS = [Part("fft", check_case, {"quick": 16000, "thorough": 400000}, strategy=st_case)]
